@@ -81,8 +81,8 @@ Section Parse.
       | KFloat gt =>
         let fin (m e : Z) : outcome mval :=
           match gt with
-          | Some b => if num_ltb (num_of_Z b) (mkNum m e) then Ok (MDec m e) else reject
-          | None => Ok (MDec m e)
+          | Some b => if num_ltb (num_of_Z b) (mkNum m e) then Ok (MFloat m e) else reject
+          | None => Ok (MFloat m e)
           end in
         match v with
         | JInt z => fin z 0%Z
